@@ -164,6 +164,18 @@ var c04Opts = GenOpts{MaxNodes: 5, MultiHalt: true, Flags: true, Sinks: true, Ou
 // histories leave a node while its page index is above 0.
 func addPager(t *rapid.T, a *app.App) {
 	rows := 5 + uniformN(t, 8, "pagerrows")
+	size := 60 + uniformN(t, 60, "pagersize")
+	// three times out of four the output size also has room for the largest page of the
+	// other nodes (so that a history is not cut short by a page that does not fit), and the
+	// pager's content grows with it so that it still spans several pages
+	if chancePct(t, 75, "pagerroomy") {
+		if need := roughPageNeed(a) + 10; need > size && need < 4000 {
+			size = need
+		}
+		if r := size*2/13 + 3; r > rows {
+			rows = r
+		}
+	}
 	var content []string
 	for i := 0; i < rows; i++ {
 		content = append(content, fmt.Sprintf("row number %d", i))
@@ -174,7 +186,7 @@ func addPager(t *rapid.T, a *app.App) {
 		{Op: refdec.MNEXT, Sym: "to_next", Sel: "11"}, {Op: refdec.MPREV, Sym: "to_prev", Sel: "22"}, {Op: refdec.HALT},
 		{Op: refdec.INCMP, Sym: ">", Sel: "11"}, {Op: refdec.INCMP, Sym: "<", Sel: "22"}, {Op: refdec.INCMP, Sym: "_", Sel: "0"},
 		{Op: refdec.INCMP, Sym: "^", Sel: "1"}, {Op: refdec.INCMP, Sym: ".", Sel: "*"}}})
-	a.Cfg.OutputSize = uint32(60 + uniformN(t, 60, "pagersize"))
+	a.Cfg.OutputSize = uint32(size)
 	// reachable from every node that waits for input: selector 9 right after its first HALT
 	for ni := range a.Nodes {
 		n := &a.Nodes[ni]
@@ -192,13 +204,49 @@ func addPager(t *rapid.T, a *app.App) {
 	}
 }
 
+// roughPageNeed is an upper estimate of the longest page among the application's nodes:
+// template text, the longest result of every mapped symbol, every menu line.
+func roughPageNeed(a *app.App) int {
+	need := 0
+	for i := range a.Nodes {
+		n := &a.Nodes[i]
+		l := len(n.Tpl) + 30
+		for _, in := range n.Code {
+			switch in.Op {
+			case refdec.MAP:
+				if sp := a.Sym(string(in.Sym)); sp != nil {
+					longest := 0
+					for _, r := range sp.Results {
+						longest = max(longest, len(r.Content))
+					}
+					l += longest
+				}
+			case refdec.MOUT, refdec.MNEXT, refdec.MPREV:
+				l += 1 + len(in.Sel) + 4 + len(a.Menus[string(in.Sym)]) + len(in.Sym)
+			}
+		}
+		need = max(need, l)
+	}
+	return need
+}
+
 func genC04(t *rapid.T) ModelCase {
 	o := c04Opts
 	a := GenApp(t, o)
+	// navigation is what is judged here: most of the time the output size leaves room for
+	// every page, so that a history is not cut short by a page that does not fit
+	if a.Cfg.OutputSize > 0 && chancePct(t, 80, "roomy") {
+		if need := roughPageNeed(a) + 10; need > int(a.Cfg.OutputSize) && need < 4000 {
+			a.Cfg.OutputSize = uint32(need)
+		}
+	}
 	if chancePct(t, 50, "pager") {
 		addPager(t, a)
 	}
 	modelFriendly(a)
+	// a first function with a constant answer (no flags, never failing or refusing): it runs
+	// on a level of its own that it leaves again, so the position is the table's all the same
+	genFirst(t, a, 25, false)
 	mode := modelModes[uniformN(t, len(modelModes), "mode")]
 	c := ModelCase{App: a, Mode: mode}
 	if mode.Kind == "persist" && chancePct(t, 40, "reuse") {
@@ -216,6 +264,9 @@ func checkC04(c ModelCase) (o Outcome) {
 	o.Viol, o.Discard = v, discard
 	if c.Mode.Reuse != "" {
 		o.class("reused-persister:" + c.Mode.Reuse)
+	}
+	if c.App.Cfg.First != nil {
+		o.class("first-function")
 	}
 	o.NonTrivial = f.descents >= 1 && (f.ascents+f.rewinds) >= 1 && f.maxDepth >= 2 && (f.laterals+f.repeats) >= 1
 	o.class("depth:%d", min(f.maxDepth, 6))
